@@ -8,7 +8,7 @@ export GOFLAGS=-mod=mod GOPROXY=off
 git -C /repo worktree remove --force $wt 2>/dev/null
 git -C /repo worktree add --detach $wt HEAD >/dev/null 2>&1 || exit 2
 res=""
-cp $out/*_test.go $wt/$mod/$dest/ 2>/dev/null
+mkdir -p $wt/$mod/$dest; cp $out/*_test.go $wt/$mod/$dest/ 2>/dev/null
 ( cd $wt/$mod && go test -vet=off -count=1 -run "$rx" ./$dest/ >/tmp/cm-$name.nopatch.log 2>&1 ) && res="$res demo_without_patch=PASS" || res="$res demo_without_patch=FAIL"
 git -C $wt apply /verif/seeded/$name/patch.diff || { echo "patch does not apply"; exit 2; }
 ( cd $wt/$mod && go test -vet=off -count=1 -run "$rx" ./$dest/ >/tmp/cm-$name.patch.log 2>&1 ) && res="$res demo_with_patch=PASS" || res="$res demo_with_patch=FAIL"
